@@ -137,8 +137,19 @@ def strip_generics(s):
     return "".join(out)
 
 
+_CK_CACHE = {}
+
+
 def callee_key(callee):
-    """-> (key, selfty, generic_args_text)"""
+    """-> (key, selfty, generic_args_text)  (memoised: the same call sites are executed on every path)"""
+    r = _CK_CACHE.get(callee)
+    if r is None:
+        r = _callee_key(callee)
+        _CK_CACHE[callee] = r
+    return r
+
+
+def _callee_key(callee):
     c = callee.strip()
     gen = None
     m = re.search(r"::<(.*)>$", c)
@@ -253,16 +264,21 @@ class Ctx:
             if c is False or (pos == len(self.prefix) - 1 and c is not True and not self.feasible(c)):
                 raise PathInfeasible()
         else:
-            i = None
+            # fresh decision: determine every feasible alternative now (the solver is at exactly this state), so that
+            # infeasible siblings never cost a re-execution of the whole prefix
+            feas = []
             for k, c in enumerate(conds):
                 if c is False:
                     continue
                 if c is True or self.feasible(c):
-                    i = k
-                    break
-            if i is None:
+                    feas.append(k)
+            if not feas:
                 raise PathInfeasible()
-        self.decisions.append((i, len(conds), label))
+            i = feas[0]
+            self.decisions.append((i, len(conds), label, feas[1:]))
+            self.assume(conds[i])
+            return i
+        self.decisions.append((i, len(conds), label, None))
         self.assume(conds[i])
         return i
 
@@ -277,7 +293,7 @@ class Ctx:
         return self.choose([cond, z3.Not(cond)], label) == 0
 
 
-def explore(prog, entry, make_args, world_factory=None, check=None, max_paths=5000, shard=None, **kw):
+def explore(prog, entry, make_args, world_factory=None, check=None, max_paths=5000, shard=None, seed_only=None, seed=None, **kw):
     """depth-first exploration by re-execution with decision prefixes.  entry: MIR function key or python callable(ctx, *args).
     shard=(i, k): all k workers first expand the decision tree breadth-first (identically) until there are ≥ 12k open
     prefixes, then worker i continues with every k-th one.  returns list of (ctx, outcome)"""
@@ -299,17 +315,38 @@ def explore(prog, entry, make_args, world_factory=None, check=None, max_paths=50
             return None, None, []
         alts = []
         for i in range(len(prefix), len(ctx.decisions)):
-            ch, n, _ = ctx.decisions[i]
-            for alt in range(ch + 1, n):
+            ch, n, _, rest = ctx.decisions[i]
+            for alt in (rest if rest is not None else range(ch + 1, n)):
                 alts.append([d[0] for d in ctx.decisions[:i]] + [alt])
         return ctx, out, alts
 
     results = []
     stack = [[]]
-    if shard is not None:
+    if seed_only is not None:
+        # parent process: expand breadth-first once, hand the open prefixes and the finished decision vectors to the workers
+        frontier, done = [[]], []
+        budget = max(8, seed_only // 2)        # bounded number of seeding runs: the rest is the workers' job
+        while frontier and len(frontier) < seed_only and budget > 0:
+            budget -= 1
+            prefix = frontier.pop(0)
+            ctx, out, alts = run_one(prefix)
+            frontier.extend(alts)
+            if ctx is not None:
+                done.append([d[0] for d in ctx.decisions])
+        return {"open": frontier, "done": done}
+    if shard is not None and seed is not None:
+        i, k = shard
+        for vec in seed["done"][i::k]:
+            ctx, out, alts = run_one(vec)       # exact re-execution of a path finished during seeding
+            if ctx is not None:
+                results.append((ctx, out))
+        stack = seed["open"][i::k]
+    elif shard is not None:
         i, k = shard
         frontier, seeded = [[]], []
-        while frontier and len(frontier) < 12 * k:
+        budget = 3 * k
+        while frontier and len(frontier) < 6 * k and budget > 0:
+            budget -= 1
             prefix = frontier.pop(0)
             ctx, out, alts = run_one(prefix)
             frontier.extend(alts)
@@ -340,6 +377,12 @@ class Program:
         for t in mir_texts:
             self.funcs.update(parse_mir(t))
         self.summaries = {}
+        self._rl_cache = {}
+        self._rt_cache = {}
+        self.simple_consts = {}     # `const NAME: T = const LITERAL;` items
+        for t in mir_texts:
+            for m in re.finditer(r"^const ([\w:]+): [^=\n]* = const (.*);$", t, flags=re.M):
+                self.simple_consts[m.group(1).split("::")[-1]] = m.group(2)
         self.enum_variants = {"Option": [["None", "Some"]], "Result": [["Ok", "Err"]], "ControlFlow": [["Continue", "Break"]],
                               "Ordering": [["Less", "Equal", "Greater"]], "ErrorKind": [["NotFound", "Other"]],
                               "Cow": [["Borrowed", "Owned"]], "Entry": [["Occupied", "Vacant"]],
@@ -450,6 +493,16 @@ class Program:
 
     # ---- resolution
     def resolve_local(self, callee):
+        if callee in self._rl_cache:
+            return self._rl_cache[callee]
+        try:
+            r = self._resolve_local(callee)
+        except Unsupported:
+            raise
+        self._rl_cache[callee] = r
+        return r
+
+    def _resolve_local(self, callee):
         key = strip_generics(callee)
         key = re.sub(r"<'_>", "", key)
         last = key.split("::")[-1]
@@ -724,6 +777,8 @@ class Program:
             raise Unsupported("alloc const " + c)
         # named const item defined in one of the loaded crates (e.g. libcnb_data::sbom::SBOM_FORMATS)
         last = strip_generics(c).split("::")[-1]
+        if re.fullmatch(r"[A-Z][A-Z0-9_]*", last) and last in self.simple_consts:
+            return self.const(ctx, self.simple_consts[last])
         if re.fullmatch(r"[A-Z][A-Z0-9_]*", last):
             hits = [k for k, fn in self.funcs.items() if fn.is_const and fn.name.split("::")[-1] == last]
             if len(hits) == 1:
@@ -872,6 +927,13 @@ class Program:
         raise Unsupported(f"no summary for {callee}  [key={key}] in {f.name}")
 
     def resolve_trait_local(self, callee, selfty, key):
+        if callee in self._rt_cache:
+            return self._rt_cache[callee]
+        r = self._resolve_trait_local(callee, selfty, key)
+        self._rt_cache[callee] = r
+        return r
+
+    def _resolve_trait_local(self, callee, selfty, key):
         if selfty is None:
             return None
         ty = re.sub(r"<.*", "", strip_generics(selfty).lstrip("&").replace("mut ", "")).split("::")[-1]
